@@ -390,6 +390,7 @@ type varInfo struct {
 	coq    string
 	typ    string
 	valPtr bool // pointer known to be non-nil, represented by the pointee value
+	ctyp   string // the receiver: its model record (the unit's receiver model, not the default binding of the Go type)
 }
 
 type pre struct {
@@ -426,6 +427,12 @@ type xlat struct {
 	recvMut     *varInfo // the function assigns fields of its receiver: the receiver is threaded and returned beside the results
 	loopDepth   int    // > 0 while the body of a loop is translated
 	elided      string // element type of the slice literal whose untyped element literal is being translated
+	doneMut     map[string]string   // translated functions that assign receiver fields -> result kind (result: receiver * results)
+	doneParams  map[string][]string // translated function -> the extra parameters it takes after its Go parameters
+	lockOK      map[ast.Stmt]bool   // the mutex statements of the function being translated that follow lockProtocol
+	mutArg      map[*ast.Object]bool // pointer variables whose pointee a mutResBind call rewrites
+	fieldStore  map[*ast.Object]bool // variables a field of which is assigned (V.f = ..)
+	body        *ast.BlockStmt      // body of the function being translated
 }
 
 // cret: the translation of `return` with result term [t]
@@ -603,6 +610,9 @@ func tupleOf(vs []*varInfo) string {
 }
 
 func coqOfVar(v *varInfo) (string, bool) {
+	if v.ctyp != "" {
+		return v.ctyp, true
+	}
 	t := v.typ
 	if v.valPtr {
 		t = strings.TrimPrefix(t, "*")
@@ -682,6 +692,7 @@ func (x *xlat) analyse(body *ast.BlockStmt) {
 		case *ast.SelectorExpr:
 			if id, ok := l.X.(*ast.Ident); ok && id.Obj != nil {
 				x.mutable[id.Obj] = true
+				x.fieldStore[id.Obj] = true
 			}
 		}
 	}
@@ -715,6 +726,22 @@ func (x *xlat) analyse(body *ast.BlockStmt) {
 		case *ast.CallExpr:
 			if mb, ok := mutBinds[exprString(s.Fun)]; ok && mb.mut < len(s.Args) {
 				mark(s.Args[mb.mut], false)
+			}
+			if sel, ok := s.Fun.(*ast.SelectorExpr); ok {
+				// R.M(.., X, ..) for a method name with a mutResBind: X's pointee may be rewritten (the receiver type is
+				// checked where the call is translated; marking too much only threads more state)
+				for k, mb := range mutResBinds {
+					if strings.HasSuffix(k, "."+sel.Sel.Name) && mb.mut < len(s.Args) {
+						if id, ok := s.Args[mb.mut].(*ast.Ident); ok && id.Obj != nil {
+							x.mutable[id.Obj] = true
+							x.mutArg[id.Obj] = true
+						}
+					}
+				}
+				// sp.M(..) for a translated method that assigns receiver fields: the receiver is threaded
+				if id, ok := sel.X.(*ast.Ident); ok && id.Obj != nil && x.doneMut[sel.Sel.Name] != "" {
+					x.mutable[id.Obj] = true
+				}
 			}
 		}
 		return true
@@ -893,6 +920,16 @@ func (x *xlat) expr(e ast.Expr) ex {
 	case *ast.SliceExpr:
 		// s[lo:], s[:hi] on []byte (the model checks against len(s): see the note at Decrypt.slice_to)
 		b := x.expr(n.X)
+		if _, isList := coqOf(b.typ); isList && strings.HasPrefix(b.typ, "[]") && b.typ != "[]byte" && !n.Slice3 && n.Low != nil && n.High == nil {
+			// s[lo:] on a slice modelled by a list: 0 <= lo <= len(s), else panic
+			i := x.expr(n.Low)
+			if i.typ != "int" {
+				unsup(n, "slice bound of type %s", i.typ)
+			}
+			name := x.freshName("x")
+			pres := append(append(append([]pre{}, b.pres...), i.pres...), pre{"opt", name, "(lslice_from " + b.term + " " + i.term + ")"})
+			return ex{pres: pres, term: name, typ: b.typ}
+		}
 		if b.typ != "[]byte" || n.Slice3 || (n.Low != nil) == (n.High != nil) {
 			unsup(n, "slice expression form on %s", b.typ)
 		}
@@ -1233,11 +1270,29 @@ func (x *xlat) call(n *ast.CallExpr) ex {
 			}
 			return a
 		case "append":
-			if len(n.Args) != 2 || n.Ellipsis != token.NoPos {
+			if len(n.Args) != 2 {
 				unsup(n, "append form")
 			}
 			a := x.expr(n.Args[0])
 			b := x.expr(n.Args[1])
+			if n.Ellipsis != token.NoPos {
+				// append(a, b...): both slices of the same type, modelled by lists
+				if _, ok := coqOf(a.typ); !ok || !strings.HasPrefix(a.typ, "[]") || a.typ == "[]byte" || b.typ != a.typ {
+					unsup(n, "append(%s, %s...)", a.typ, b.typ)
+				}
+				return ex{pres: append(append([]pre{}, a.pres...), b.pres...), term: "(" + a.term + " ++ " + b.term + ")", typ: a.typ}
+			}
+			if pt, ok := ifaceOfPtr[strings.TrimPrefix(a.typ, "[]")]; ok && strings.HasPrefix(a.typ, "[]") && b.typ == pt {
+				// a pointer stored in an interface-typed element: the pointee represents it (nil is not representable)
+				pres := append(append([]pre{}, a.pres...), b.pres...)
+				t := b.term
+				if !b.valPtr {
+					p := x.freshName("p")
+					pres = append(pres, pre{"opt", p, t})
+					t = p
+				}
+				return ex{pres: pres, term: "(" + a.term + " ++ [" + t + "])", typ: a.typ}
+			}
 			return ex{pres: append(append([]pre{}, a.pres...), b.pres...), term: "(" + a.term + " ++ [" + b.term + "])", typ: a.typ}
 		}
 	}
@@ -1317,15 +1372,29 @@ func (x *xlat) call(n *ast.CallExpr) ex {
 					recvArg = "(" + proj + " " + vi.coq + ")"
 				}
 				args := []string{recvArg, "now"}
+				if sa := sectionArgs[sel.Sel.Name]; sa != "" {
+					args = []string{sa, recvArg, "now"}
+				}
 				for _, a := range n.Args {
 					v := x.expr(a)
 					pres = append(pres, v.pres...)
 					args = append(args, v.term)
 				}
+				// the callee's extra parameters (values supplied from outside) become parameters of the caller
+				for _, p := range x.doneParams[sel.Sel.Name] {
+					if x.needParams == nil {
+						x.needParams = map[string]bool{}
+					}
+					x.needParams[p] = true
+					args = append(args, paramName(p))
+				}
 				name := x.freshName("r")
 				pres = append(pres, pre{"pm", name, "(G_" + sel.Sel.Name + " " + strings.Join(args, " ") + ")"})
 				if kind == "error" {
 					return ex{pres: pres, term: "(err_of_res " + name + ")", typ: "error"}
+				}
+				if !strings.HasSuffix(kind, ",error") {
+					return ex{pres: pres, term: name, typ: kind} // a single non-error result: the value itself
 				}
 				return ex{pres: pres, term: name, typ: "res:" + kind}
 			}
@@ -1481,6 +1550,8 @@ func terminates(s ast.Stmt) bool {
 		return len(n.List) > 0 && terminates(n.List[len(n.List)-1])
 	case *ast.IfStmt:
 		return n.Else != nil && terminates(n.Body) && terminates(n.Else)
+	case *ast.ExprStmt:
+		return isPanicCall(n.X) != nil
 	}
 	return false
 }
@@ -1554,6 +1625,9 @@ func (x *xlat) block(list []ast.Stmt, cur, out, loop []*varInfo, inLoop bool) st
 		}
 		return fmt.Sprintf("let %s := (%s %s 1)%%Z in %s", vi.coq, vi.coq, op, cont(cur))
 	case *ast.AssignStmt:
+		if _, _, isMutRes := x.mutResBindOf(n); isMutRes && !failsFast(n, rest) {
+			unsup(n, "the call must be followed by `if err != nil { return .. }` (its argument after a failure is not modelled)")
+		}
 		return x.assign(n, cur, cont)
 	case *ast.IfStmt:
 		if init, ok := n.Init.(*ast.AssignStmt); ok && len(init.Rhs) == 1 {
@@ -1645,7 +1719,27 @@ func (x *xlat) block(list []ast.Stmt, cur, out, loop []*varInfo, inLoop bool) st
 		x.loopDepth--
 		loopT := fmt.Sprintf("for_range (fun %s %s => %s) (zrange %s) %s", vi.coq, patOf(cur), body, bound.term, tupleOf(cur))
 		return wrapPres(bound.pres, seq(loopT), "CPanic")
+	case *ast.DeferStmt:
+		if x.lockOK[n] {
+			return cont(cur) // the deferred Unlock of the lock protocol (checkLocks)
+		}
+		unsup(n, "defer")
 	case *ast.ExprStmt:
+		if x.lockOK[n] {
+			return cont(cur) // a statement of the lock protocol (checkLocks): no sequential effect
+		}
+		if x.mutexOp(n.X) != "" {
+			unsup(n, "mutex statement outside the lock protocol")
+		}
+		if a := isPanicCall(n.X); a != nil {
+			// panic(v): the operand is evaluated, then the function panics
+			return wrapPres(x.expr(a).pres, "CPanic", "CPanic")
+		}
+		if c, ok := n.X.(*ast.CallExpr); ok {
+			if t, ok := x.mutMethodStmt(n, c, cur, cont); ok {
+				return t
+			}
+		}
 		// c.CryptBlocks(dst, src) on a cipher.BlockMode: dst := decrypted src (panics unless src is whole blocks)
 		if c, ok := n.X.(*ast.CallExpr); ok {
 			if sel, ok := c.Fun.(*ast.SelectorExpr); ok && sel.Sel.Name == "CryptBlocks" && len(c.Args) == 2 {
@@ -1946,6 +2040,14 @@ func (x *xlat) assign(n *ast.AssignStmt, cur []*varInfo, cont func([]*varInfo) s
 			return cont(cur)
 		}
 	}
+	// a := sp.M(args) for a translated method that assigns receiver fields
+	if t, ok := x.recvMutCall(n, cur, cont, bindIdent); ok {
+		return t
+	}
+	// v, err := R.M(.., X, ..) where M rewrites what X points to and may panic
+	if t, ok := x.mutResCall(n, cur, cont, bindIdent); ok {
+		return t
+	}
 	// err = f(.., X, ..) where f mutates the struct / element X points to
 	if len(n.Lhs) == 1 && len(n.Rhs) == 1 {
 		if call, ok := n.Rhs[0].(*ast.CallExpr); ok {
@@ -2049,6 +2151,29 @@ func (x *xlat) assign(n *ast.AssignStmt, cur []*varInfo, cont func([]*varInfo) s
 	if len(n.Lhs) == 2 && len(n.Rhs) == 1 {
 		a, ok1 := n.Lhs[0].(*ast.Ident)
 		b, ok2 := n.Lhs[1].(*ast.Ident)
+		if fvi, fst, ffield, ffb, isField := x.fieldOfLocal(n.Lhs[0]); !ok1 && ok2 && isField && ffb.set != "" && n.Tok == token.ASSIGN {
+			// V.f, err = g(args) for a call with results (T, error): the value (nil / zero beside an error) is stored in V.f
+			call, ok := n.Rhs[0].(*ast.CallExpr)
+			if !ok {
+				unsup(n, "tuple assignment")
+			}
+			r := x.expr(call)
+			if !strings.HasPrefix(r.typ, "res:") || !strings.HasSuffix(r.typ, ",error") {
+				unsup(n, "tuple assignment from %s", exprString(call.Fun))
+			}
+			vt := strings.TrimSuffix(strings.TrimPrefix(r.typ, "res:"), ",error")
+			if vt != x.structs[fst][ffield] {
+				unsup(n, "assignment of %s to a field of type %s", vt, x.structs[fst][ffield])
+			}
+			val := "(ptr_of_res " + r.term + ")"
+			if !isPtr(vt) {
+				val = "match " + r.term + " with Ok v => v | Err _ => " + zeroOf(n, vt) + " end"
+			}
+			tmp := x.freshName("t")
+			vb, c2 := bindIdent(b, "error", false, cur)
+			store := x.storeField(n, fvi, fst, ffield, ffb, ex{term: tmp, typ: vt}, c2, cont)
+			return wrapPres(r.pres, fmt.Sprintf("let %s := %s in let %s := (err_of_res %s) in %s", tmp, val, vb.coq, r.term, store), "CPanic")
+		}
 		if !ok1 || !ok2 {
 			unsup(n, "tuple assignment to non-identifiers")
 		}
@@ -2149,6 +2274,9 @@ func (x *xlat) assign(n *ast.AssignStmt, cur []*varInfo, cont func([]*varInfo) s
 		}
 		return wrapPres(v.pres, fmt.Sprintf("let %s := %s in %s", vi.coq, term, cont(c)), "CPanic")
 	case *ast.SelectorExpr:
+		if ovi, ost, ofield, ofb, isField := x.fieldOfLocal(l.X); isField {
+			return x.storeNested(n, l, ovi, ost, ofield, ofb, v, cur, cont)
+		}
 		id, ok := l.X.(*ast.Ident)
 		if !ok || id.Obj == nil || x.locals[id.Obj] == nil {
 			unsup(n, "assignment through %s", exprString(l.X))
@@ -2532,6 +2660,10 @@ func (x *xlat) function(out *bytes.Buffer, name string) {
 	x.locals = map[*ast.Object]*varInfo{}
 	x.mutable = map[*ast.Object]bool{}
 	x.reassign = map[*ast.Object]bool{}
+	x.mutArg = map[*ast.Object]bool{}
+	x.fieldStore = map[*ast.Object]bool{}
+	x.body = fd.Body
+	x.lockOK = nil
 	x.used = map[string]bool{}
 	x.fresh = 0
 	x.loopDepth = 0
@@ -2575,6 +2707,10 @@ func (x *xlat) function(out *bytes.Buffer, name string) {
 					recvMutated = true
 				case gt == "string" || gt == "int" || gt == "bool" || wraps64(gt):
 					assigned = true
+				case x.mutArg[id.Obj] && !x.reassign[id.Obj] && !x.fieldStore[id.Obj] && strings.HasPrefix(gt, "*") && typeBind(gt[1:]) != "" && !nilableParams[gt]:
+					// the pointee of a (non-nil) pointer parameter is rewritten by a bound call: threaded like a local; the
+					// rewrite of the CALLER's object is not part of the translated function's result
+					assigned = true
 				default:
 					unsup(t, "parameter %s is assigned", id.Name)
 				}
@@ -2600,6 +2736,9 @@ func (x *xlat) function(out *bytes.Buffer, name string) {
 				unsup(t, "parameter type %s", gt)
 			}
 			vi := x.declare(id, gt, valPtr)
+			if len(params) == 0 && recvModel[name] != "" {
+				vi.ctyp = ct
+			}
 			params = append(params, fmt.Sprintf("(%s : %s)", vi.coq, ct))
 			if recvMutated {
 				x.recvMut = vi
@@ -2667,6 +2806,7 @@ func (x *xlat) function(out *bytes.Buffer, name string) {
 			cur0 = append(cur0, x.recvMut)
 			rt = "(" + recvModel[name] + " * " + rt + ")"
 		}
+		x.checkLocks(fd.Body)
 		body := x.block(fd.Body.List, cur0, nil, nil, false)
 		if x.bt != nil {
 			body = "let bt := (Text EmptyString) in " + body
@@ -2677,6 +2817,10 @@ func (x *xlat) function(out *bytes.Buffer, name string) {
 		}
 		sort.Strings(nps)
 		params = append(params, nps...)
+		if x.doneParams == nil {
+			x.doneParams = map[string][]string{}
+		}
+		x.doneParams[name] = nps
 		var exts []string
 		for e := range x.externs {
 			exts = append(exts, e)
@@ -2692,6 +2836,12 @@ func (x *xlat) function(out *bytes.Buffer, name string) {
 	out.WriteString(text)
 	if kind != "" && x.recvMut == nil && !strings.HasPrefix(text, "(* UNSUPPORTED") {
 		x.done[name] = kind
+	}
+	if kind != "" && x.recvMut != nil && !strings.HasPrefix(text, "(* UNSUPPORTED") {
+		if x.doneMut == nil {
+			x.doneMut = map[string]string{}
+		}
+		x.doneMut[name] = kind // callable only in the statement forms of recvMutCall
 	}
 }
 
